@@ -94,3 +94,89 @@ fn c14_trichotomy_i64_canary() {
     let b = ComparableValue::EqualTo(n).imatches(v);
     assert!(b == ((v as u64) == n)); // ignores the sign: must FAIL
 }
+
+// @harness props=C14,C13 tier=quick cost=60 flags=nomem
+// @exec SizeMatcher::matches, byte_size_to_unit_size, ComparableValue::matches, WalkEntry::metadata
+// @sym world (sizes 0..2^63-1), follow P/H/L, depth 0..1, N: u64, form, unit
+// @bounds one path; depth <= 1
+// @assume kernel contract for stat vs lstat; st_size >= 0
+/// -size [+-]N[cwbkMG] compares N with ceil(size/unit) of the record the follow mode selects.
+#[kani::proof]
+#[kani::unwind(3)]
+#[kani::stub(alloc::fmt::format, fmt_stub)]
+#[kani::stub(<std::io::Stderr as std::io::Write>::write_fmt, wf_stub)]
+#[kani::stub(std::fs::metadata, stat_stub)]
+#[kani::stub(std::fs::symlink_metadata, lstat_stub)]
+fn c14_size_matcher_record() {
+    use crate::find::matchers::entry::verif_kani::*;
+    use crate::find::matchers::stat::verif_kani::{any_cv, want_cmp};
+    let (lst, sst, s_ok, s_err) = any_world(&[libc::ENOENT, libc::ELOOP]);
+    let follow = any_follow();
+    let depth: usize = kani::any();
+    kani::assume(depth <= 1);
+    let entry = WalkEntry::new("a", depth, follow);
+    let (cv, k, n) = any_cv();
+    let (unit, shift) = any_unit();
+    let m = SizeMatcher { value_to_match: cv, unit };
+    let deps = Deps::new();
+    let mut io = MatcherIO::new(&deps);
+    let got = m.matches(&entry, &mut io);
+    match selected_record(lst, sst, s_ok, s_err, follow.follow_at_depth(depth)) {
+        Some(r) => {
+            assert!(got == want_cmp(k, n, ceil_div_pow2(r.st_size as u64, shift)));
+            // corollaries named in the property: -size -1k <=> empty ; -size 1M <=> 1..=2^20
+            if k == 2 && n == 1 && shift == 10 { assert!(got == (r.st_size == 0)); }
+            if k == 1 && n == 1 && shift == 20 { assert!(got == (r.st_size >= 1 && r.st_size <= (1 << 20))); }
+        }
+        None => assert!(!got),
+    }
+    kani::cover!(got && k == 1 && n == 1 && shift == 20);
+    kani::cover!(got && k == 2 && n == 1 && shift == 10);
+    std::mem::forget(entry);
+}
+#[kani::proof]
+#[kani::unwind(3)]
+#[kani::stub(alloc::fmt::format, fmt_stub)]
+#[kani::stub(<std::io::Stderr as std::io::Write>::write_fmt, wf_stub)]
+#[kani::stub(std::fs::metadata, stat_stub)]
+#[kani::stub(std::fs::symlink_metadata, lstat_stub)]
+fn c14_size_matcher_record_canary() {
+    use crate::find::matchers::entry::verif_kani::*;
+    let (lst, _sst, _s_ok, _s_err) = any_world(&[libc::ENOENT]);
+    let entry = WalkEntry::new("a", 1, crate::find::matchers::Follow::Never);
+    let n: u64 = kani::any();
+    let m = SizeMatcher { value_to_match: ComparableValue::EqualTo(n), unit: Unit::KibiByte };
+    let deps = Deps::new();
+    let mut io = MatcherIO::new(&deps);
+    let got = m.matches(&entry, &mut io);
+    assert!(got == ((lst.st_size as u64) >> 10 == n)); // rounds down: must FAIL
+    std::mem::forget(entry);
+}
+
+// @harness props=C11,C14 tier=quick cost=5
+// @exec Unit::from_str
+// @sym suffix of 0..2 symbolic ASCII bytes
+// @bounds suffix length <= 2
+/// The unit suffix is one of <nothing> b c w k M G; anything else is rejected, never a panic.
+#[kani::proof]
+#[kani::unwind(4)]
+#[kani::stub(alloc::fmt::format, fmt_stub)]
+#[kani::stub(alloc::raw_vec::handle_error, he_stub)]
+#[kani::stub(std::alloc::handle_alloc_error, hae_stub)]
+fn c14_unit_suffix() {
+    use crate::find::matchers::entry::verif_kani::*;
+    let b: [u8; 2] = kani::any();
+    kani::assume(b[0] < 0x80 && b[1] < 0x80);
+    let len: usize = kani::any();
+    kani::assume(len <= 2);
+    let s = unsafe { std::str::from_utf8_unchecked(&b[..len]) };
+    let r: Result<Unit, _> = s.parse();
+    let want: Option<u32> = if len == 0 { Some(9) } else if len == 1 { match b[0] { b'c' => Some(0), b'w' => Some(1), b'b' => Some(9), b'k' => Some(10), b'M' => Some(20), b'G' => Some(30), _ => None } } else { None };
+    match &r {
+        Ok(u) => { let sh = match u { Unit::Byte => 0, Unit::TwoByteWord => 1, Unit::Block => 9, Unit::KibiByte => 10, Unit::MebiByte => 20, Unit::GibiByte => 30 }; assert!(want == Some(sh)); }
+        Err(_) => assert!(want.is_none()),
+    }
+    kani::cover!(r.is_ok() && len == 0);
+    kani::cover!(r.is_err() && len == 1);
+    std::mem::forget(r);
+}
